@@ -241,6 +241,33 @@ def scenario(rng, kind):
         g.add("release", 0)
         g.add("stop_wait")
         g.ops += [list(x) for x in TAIL]
+    elif kind == "heldtx_blockloss":
+        # in sync; the tx thread is inside a relevant tx (output fetch held: it holds the block lock); a block is
+        # announced and delivered (the block thread pops it and waits behind the tx); the trusted connection is lost in
+        # exactly that window; the fetch returns; reconnect: the node must resume from its stored tip and deliver that
+        # block and what follows
+        g.add("start")
+        g.handshake()
+        g.sync_some(3)
+        g.insync()
+        g.add("hold", 100)
+        g.tx(True)
+        g.headers(1)
+        g.blocks(1)
+        g.add("sleep", 300)
+        g.add(r.choice(["peer_close", "peer_reset"]))
+        g.add("sleep", 150)
+        g.add("release", 0)
+        g.add("sleep", 400)
+        g.add("announced")
+        g.add("peer_accept")
+        g.sent = 0
+        g.ready = False
+        g.add("peer_version")
+        g.sync_some(3)
+        g.insync()
+        g.traffic()
+        g.stop_tail()
     elif kind == "abort":
         # the consumer of the tx channel fails while the channel is NOT full: the node stops by itself
         g.add("start")
@@ -585,7 +612,10 @@ def scenario(rng, kind):
         g.stop_tail()
     else:
         raise KeyError(kind)
-    return {"cfg": {}, "ops": g.ops, "kind": kind}
+    c = {"cfg": {}, "ops": g.ops, "kind": kind}
+    if kind == "heldtx_blockloss":
+        c["skip_model"] = True     # the model hands a block to the block thread and processes it in one step: monitor only
+    return c
 
 
 KINDS_QUICK = ["connecting", "connecting", "handshake", "handshake", "handshake", "headers", "headers", "midblocks",
@@ -593,10 +623,10 @@ KINDS_QUICK = ["connecting", "connecting", "handshake", "handshake", "handshake"
                "afterloss", "afterloss", "afterloss", "reconnecting", "reconnected", "reconnected", "silence",
                "stoprestarting", "stoprestarting", "stoprestarting", "apifill", "apifill", "apicalls",
                "persist_inv", "persist_inv", "persist_api", "persist_api", "blockfail", "blockfail", "blockfail",
-               "txblocks", "backpressure",
+               "txblocks", "backpressure", "heldtx_blockloss", "heldtx_blockloss",
                "scanstop", "scanclose", "scanquiet", "ulist", "slowdial", "udrop", "udialdrop"]
 WEIGHTS = [("connecting", 2), ("handshake", 3), ("headers", 3), ("midblocks", 4), ("heldblock", 3), ("insync", 5),
-           ("heldtx", 3), ("abort", 2), ("afterloss", 5), ("reconnecting", 2), ("reconnected", 5), ("silence", 1), ("stoprestarting", 4), ("apifill", 3),
+           ("heldtx", 3), ("heldtx_blockloss", 2), ("abort", 2), ("afterloss", 5), ("reconnecting", 2), ("reconnected", 5), ("silence", 1), ("stoprestarting", 4), ("apifill", 3),
            ("apicalls", 2), ("persist_inv", 3), ("persist_api", 3), ("blockfail", 4),
            ("txblocks", 2), ("backpressure", 2),
            ("scanstop", 3), ("scanclose", 3), ("scanquiet", 1), ("scanlong", 2), ("ulist", 2), ("slowdial", 2), ("udrop", 2),
@@ -672,8 +702,12 @@ def shutdown_suite(tier, rng, replay):
                 cases.append(scenario(r, r.weighted(WEIGHTS)))
     for c in cases:
         c["coq_ops"] = [coq_op(o) for o in c["ops"]]
+        c["model"] = "cmp_run srun"
+        if any(o[0] == "hold" and o[1] == 100 for o in c["ops"]) and any(o[0] in ("peer_close", "peer_reset") for o in c["ops"]) \
+                and c.get("origin") == "replay":
+            c["skip_model"] = True
     return Suite("shutdown", "shutdown", ["From V.model Require Import Shutdown."],
-                 [{"key": "shutdown", "optype": "sop", "cases": cases, "model": "cmp_run srun",
+                 [{"key": "shutdown", "optype": "sop", "cases": cases, "per_case_model": True,
                    "monitors": {"c19": "c19_monitor"}}])
 
 
@@ -803,10 +837,30 @@ def keyfn(rec):
     return "shutdown:%s:%s:%s:%s" % (rec.get("checker"), code, opn, shape)
 
 
+def resume_extra(tier, rng, workdir):
+    """"A lost trusted connection is followed by reconnection and resumption from the stored tip": the connection is lost
+    while a delivered block waits behind a held relevant tx; after the reconnect the node must end with EVERY block the
+    peer delivered on a live connection processed and announced (915 otherwise)."""
+    cases = [scenario(rng.fork(19800 + i), "heldtx_blockloss") for i in range(2 if tier == "quick" else 12)]
+    res, _ = vlib.run_harness("shutdown", [{"cfg": c["cfg"], "ops": c["ops"]} for c in cases], workdir, tag="resume", timeout=900)
+    failures = []
+    for c, tr in zip(cases, res):
+        served = sum(o[1] for o in c["ops"] if o[0] == "peer_blocks")
+        last = max(i for i, o in enumerate(c["ops"]) if o[0] == "announced")
+        want = [0] + [x for h in range(1, served + 1) for x in (h, h)]
+        if list(tr[last]) != want:
+            failures.append({"suite": "shutdown_resume", "checker": "c19", "step": last, "cfg": c["cfg"], "ops": c["ops"], "trace": tr,
+                             "expected": [915], "observed": list(tr[last]),
+                             "what": "after the trusted connection was lost and made again the node did not process every block the peer "
+                                     "delivered (%d served, announced %s)" % (served, list(tr[last])[1::2])})
+    return {"failures": failures, "evaluations": len(cases), "coverage": {"resume_scenarios": len(cases)}}
+
+
 SPEC = {
     "pid": "C19",
     "props_file": "props/C19.v",
     "suites": suites,
+    "extra": resume_extra,
     "keyfn": keyfn,
     "trusted_base": [
         "Coq 8.16.1 kernel (coqc); vm_compute for the two concrete witnesses (D26, D27), the non-vacuity examples and for evaluating scenario model and monitor on the cases; no native_compute",
